@@ -18,6 +18,12 @@ class SimDeadlock(Exception):
     pass
 
 
+def _py_task_factory(loop, coro, **kw):
+    """Pure-Python tasks: their step/wakeup callbacks are bound methods, so the
+    loop can attribute every resumption to a task (suspension-point accounting)."""
+    return asyncio.tasks._PyTask(coro, loop=loop, **kw)
+
+
 class SimLoop(asyncio.BaseEventLoop):
     def __init__(self, clock, chooser=None, step_cap: int = 200_000) -> None:
         super().__init__()
@@ -26,6 +32,8 @@ class SimLoop(asyncio.BaseEventLoop):
         self._clock_resolution = 1e-9
         self.steps = 0
         self.step_cap = step_cap
+        self.after_step = None             # callback(task) after each task step (suspension accounting)
+        self.set_task_factory(_py_task_factory)
         self.choices: list[int] = []       # recorded schedule (index among ready)
         self.multi_ready = 0               # probe: times >1 handle was ready
         self.jumps = 0
@@ -76,6 +84,10 @@ class SimLoop(asyncio.BaseEventLoop):
         if handle._cancelled:
             return
         handle._run()
+        if self.after_step is not None:
+            owner = getattr(handle._callback, "__self__", None)
+            if isinstance(owner, asyncio.tasks._PyTask):
+                self.after_step(owner)
         handle = None
 
     def _timer_handle_cancelled(self, handle) -> None:
